@@ -155,6 +155,19 @@ def get_rdf_from_web(url: Union[URIRef, str]):
 # Note, PublicID is now called "Identifier" in the load_from_source function.
 
 
+def _short_text_is_rdf(text: str) -> bool:
+    """
+    A short string that starts with none of the characters which mark inline RDF is taken for a file
+    name. It cannot be one when it contains a line break, and it is not one when it contains blanks
+    and no such file exists (e.g. a one-line N-Triples document starting with a blank node label).
+    """
+    if '\n' in text or '\r' in text:
+        return True
+    if any(c in text for c in ' \t'):
+        return not os.path.exists(text)
+    return False
+
+
 def load_from_source(
     source: Union[GraphLike, BufferedIOBase, TextIOBase, str, bytes],
     g: Optional[GraphLike] = None,
@@ -294,7 +307,7 @@ def load_from_source(
                 # Contains a new line near the start of the file, can't be a path
                 source_as_file = None
                 source_as_filename = None
-            elif len(source) < 140:
+            elif len(source) < 140 and not _short_text_is_rdf(source):
                 filename = source
                 source_as_filename = filename
         if source_as_filename and filename:
@@ -330,7 +343,7 @@ def load_from_source(
             # Contains some JSON or XML or Turtle stuff
             source_as_file = None
             source_as_filename = None
-        elif len(source) < 140:
+        elif len(source) < 140 and not _short_text_is_rdf(source.decode('utf-8', 'replace')):
             filename = source.decode('utf-8')
             source_as_filename = filename
         if not source_as_file and not source_as_filename and not open_source:
